@@ -15,6 +15,18 @@
 //!        Kumaraswamy Laplace LogNormal Pareto ScaledInvChiSquared Uniform UnitPowerLaw (f64), Poisson Binomial NegBinomial Geometric
 //!        BetaBinomial (u32))
 //!
+//!   cmseq.<Model> -      <prior params…> <data list> <seed> <n>  -> <seq T|F> <len T|F> L<n> value…
+//!        ConjugateModel (src/model.rs) with the data observed: `seq` = `sample(n)` from `seed_from_u64(seed)` is bit-identical to n
+//!        successive `draw`s from the same generator state (true of the code: both run `posterior().draw; fx.draw` per element);
+//!        values = sample(n).  Models: BetaBernoulli a b L<k> T|F… | GammaPoisson shape rate L<k> u32… | NormalGammaGaussian m r s v L<k> f64…
+//!   cmpair.BetaBernoulli - a b L<data> <seed> <reps>  -> <#agree> <#true>   over `reps` calls of sample(2) (one generator, seeded):
+//!        #agree = calls with x0 == x1, #true = number of `true` among the 2·reps values (joint-law test of props/cases_c04.py)
+//!   cmcount.BetaBernoulli - a b L<data> <seed> <n> <reps>  -> L<reps> count…  (#true in each of `reps` calls of sample(n))
+//!   seeddraw.<Prior> -   <params…> <seed>  -> <mu> <sigma>  (NormalGamma | NormalInvGamma | NormalInvChiSquared: the drawn Gaussian)
+//!   seeddraw.NormalInvWishart - L<d> mu0 k df L<d*d> scale <seed>  -> L<d> mu L<d*d> cov   (the drawn MvGaussian, row-major)
+//!   draw.MixtureGaussian f64 L<k> w… L<k> mu… L<k> sigma… L<m> word…  -> <value> <supports> <#words>   (impl only: component = ziggurat)
+//!   hist.UnitPowerLaw f64 alpha1 alpha2 L2 w0 w1  -> <draw under alpha1 (word w0)> <draw after set_alpha(alpha2) (word w1)> <invcdf(0.5) after>
+//!
 //! params:  Bernoulli p | Laplace mu b | Gev loc scale shape | Kumaraswamy a b | UnitPowerLaw alpha | Geometric p |
 //!          DiscreteUniform a b (ints of the kind) | Uniform a b | KsTwoAsymptotic (none) | Categorical L<k> ln_w… |
 //!          MixtureLaplace L<k> w… L<k> mu… L<k> b… | InvGaussian mu lambda v kz | VonMises mu k | Empirical L<k> x… |
@@ -240,8 +252,140 @@ macro_rules! chk_int {
     }};
 }
 
+/// `sample(n)` from a fresh seeded generator vs n successive `draw`s from a fresh generator with the same seed
+fn cmseq<X: Clone, M: Sampleable<X>>(m: &M, seed: u64, n: usize, bits: &dyn Fn(&X) -> u64, show: &dyn Fn(&Vec<X>) -> String) -> String {
+    let mut r1 = Xoshiro256Plus::seed_from_u64(seed);
+    let xs: Vec<X> = m.sample(n, &mut r1);
+    let mut r2 = Xoshiro256Plus::seed_from_u64(seed);
+    let ys: Vec<X> = (0..n).map(|_| m.draw(&mut r2)).collect();
+    let seq = xs.len() == ys.len() && xs.iter().zip(ys.iter()).all(|(x, y)| bits(x) == bits(y));
+    format!("{} {} {}", tok(&seq), tok(&(xs.len() == n)), show(&xs))
+}
+fn beta_bernoulli(a: &mut Args) -> rv::ConjugateModel<bool, Bernoulli, Beta> {
+    let pr = std::sync::Arc::new(Beta::new_unchecked(a.f(), a.f()));
+    let mut m = rv::ConjugateModel::<bool, Bernoulli, Beta>::new(&Bernoulli::uniform(), pr);
+    for x in a.list(|a| a.b()) {
+        m.observe(&x);
+    }
+    m
+}
+
 pub fn dispatch(op: &str, kind: &str, a: &mut Args) -> Option<String> {
     Some(match op {
+        // -------------------------------------------------------------------------------------------- ConjugateModel
+        "cmseq.BetaBernoulli" => {
+            let m = beta_bernoulli(a);
+            let (seed, n) = (a.n(), a.n() as usize);
+            cmseq::<bool, _>(&m, seed, n, &|x| *x as u64, &|v| tok(v))
+        }
+        "cmseq.GammaPoisson" => {
+            let pr = std::sync::Arc::new(Gamma::new_unchecked(a.f(), a.f()));
+            let mut m = rv::ConjugateModel::<u32, Poisson, Gamma>::new(&Poisson::new_unchecked(1.0), pr);
+            for x in a.list(|a| a.n() as u32) {
+                m.observe(&x);
+            }
+            let (seed, n) = (a.n(), a.n() as usize);
+            cmseq::<u32, _>(&m, seed, n, &|x| *x as u64, &|v| tok(v))
+        }
+        "cmseq.NormalGammaGaussian" => {
+            let pr = std::sync::Arc::new(NormalGamma::new_unchecked(a.f(), a.f(), a.f(), a.f()));
+            let mut m = rv::ConjugateModel::<f64, Gaussian, NormalGamma>::new(&Gaussian::standard(), pr);
+            for x in a.list(|a| a.f()) {
+                m.observe(&x);
+            }
+            let (seed, n) = (a.n(), a.n() as usize);
+            cmseq::<f64, _>(&m, seed, n, &|x| x.to_bits(), &|v| tok(v))
+        }
+        "cmpair.BetaBernoulli" => {
+            let m = beta_bernoulli(a);
+            let (seed, reps) = (a.n(), a.n() as usize);
+            let mut rng = Xoshiro256Plus::seed_from_u64(seed);
+            let (mut agree, mut trues) = (0usize, 0usize);
+            for _ in 0..reps {
+                let xs: Vec<bool> = m.sample(2, &mut rng);
+                if xs.len() == 2 && xs[0] == xs[1] {
+                    agree += 1;
+                }
+                trues += xs.iter().filter(|&&x| x).count();
+            }
+            format!("{} {}", agree, trues)
+        }
+        "cmcount.BetaBernoulli" => {
+            let m = beta_bernoulli(a);
+            let (seed, n, reps) = (a.n(), a.n() as usize, a.n() as usize);
+            let mut rng = Xoshiro256Plus::seed_from_u64(seed);
+            let counts: Vec<u64> = (0..reps)
+                .map(|_| {
+                    let xs: Vec<bool> = m.sample(n, &mut rng);
+                    xs.iter().filter(|&&x| x).count() as u64
+                })
+                .collect();
+            tok(&counts)
+        }
+        // -------------------------------------------------------------------------------------------- seeded prior draws
+        "seeddraw.NormalGamma" => {
+            let d = NormalGamma::new_unchecked(a.f(), a.f(), a.f(), a.f());
+            let mut rng = Xoshiro256Plus::seed_from_u64(a.n());
+            let g: Gaussian = d.draw(&mut rng);
+            format!("{} {}", tok(&g.mu()), tok(&g.sigma()))
+        }
+        "seeddraw.NormalInvGamma" => {
+            let d = NormalInvGamma::new_unchecked(a.f(), a.f(), a.f(), a.f());
+            let mut rng = Xoshiro256Plus::seed_from_u64(a.n());
+            let g: Gaussian = d.draw(&mut rng);
+            format!("{} {}", tok(&g.mu()), tok(&g.sigma()))
+        }
+        "seeddraw.NormalInvChiSquared" => {
+            let d = NormalInvChiSquared::new_unchecked(a.f(), a.f(), a.f(), a.f());
+            let mut rng = Xoshiro256Plus::seed_from_u64(a.n());
+            let g: Gaussian = d.draw(&mut rng);
+            format!("{} {}", tok(&g.mu()), tok(&g.sigma()))
+        }
+        "seeddraw.NormalInvWishart" => {
+            let mu = a.list(|a| a.f());
+            let k0 = a.f();
+            let df = a.n() as usize;
+            let sc = a.list(|a| a.f());
+            let k = mu.len();
+            let d = NormalInvWishart::new_unchecked(
+                nalgebra::DVector::from_vec(mu),
+                k0,
+                df,
+                nalgebra::DMatrix::from_row_slice(k, k, &sc),
+            );
+            let mut rng = Xoshiro256Plus::seed_from_u64(a.n());
+            let g: MvGaussian = d.draw(&mut rng);
+            let m: Vec<f64> = g.mu().iter().cloned().collect();
+            let mut c: Vec<f64> = Vec::new();
+            for i in 0..k {
+                for j in 0..k {
+                    c.push(g.cov()[(i, j)]);
+                }
+            }
+            format!("{} {}", tok(&m), tok(&c))
+        }
+        // -------------------------------------------------------------------------------------------- Mixture<Gaussian>, history
+        "draw.MixtureGaussian" => {
+            let ws = a.list(|a| a.f());
+            let mus = a.list(|a| a.f());
+            let sg = a.list(|a| a.f());
+            let comps: Vec<Gaussian> =
+                mus.iter().zip(sg.iter()).map(|(m, s)| Gaussian::new_unchecked(*m, *s)).collect();
+            let d = Mixture::new_unchecked(ws, comps);
+            draw1::<f64, _>(&d, a)
+        }
+        "hist.UnitPowerLaw" => {
+            let mut d = UnitPowerLaw::new_unchecked(a.f());
+            let alpha2 = a.f();
+            let words = a.words();
+            let w0 = words.get(0).cloned().unwrap_or(0);
+            let w1 = words.get(1).cloned().unwrap_or(w0);
+            let x0: f64 = d.draw(&mut Script::new(vec![w0]));
+            d.set_alpha(alpha2).unwrap();
+            let x1: f64 = d.draw(&mut Script::new(vec![w1]));
+            let q: f64 = d.invcdf(0.5);
+            format!("{} {} {}", tok(&x0), tok(&x1), tok(&q))
+        }
         // -------------------------------------------------------------------------------------------- scripted draws
         "fma" => {
             let (x, y, z) = (a.f(), a.f(), a.f());
